@@ -63,6 +63,13 @@ theorem C35_event_values_kept_step (st : St) (e : EventIn) (k : String) (v : DVa
       (rename k, v) ∈ emittedData st e :=
   ⟨handleEvent_outs st e, (event_kept_step st e k v hkv hk hf).1⟩
 
+/-- Every input event (event pages unpacked) is re-emitted exactly once and in order: the (descriptor,
+    seq_num) sequence of the emitted event documents equals that of the input events, for any run that
+    does not raise. -/
+theorem C35_events_once_in_order (ds : List Doc) (hok : (NormFlow.run ds).err = none) :
+    (NormFlow.run ds).outs.flatMap eventOf = ds.flatMap (docLab (fun d s => [(d, s)])) :=
+  events_in_order ds hok
+
 /-! ## 3. every referenced datum becomes exactly one stream datum -/
 
 /-- A complete run (`body` without a stop document, then `stop`) that does not raise: the stream datums
@@ -213,6 +220,7 @@ example : refsFrom {} exDocs = [⟨.str "r/0", "img", "d1", 1⟩, ⟨.str "r/1",
 example : (runFrom {} exDocs).st.extRefs = [⟨.str "r/1", "img", "d1", 2⟩] := by decide   -- one late datum
 example : framed ("primary", "img") (NormFlow.run (exDocs ++ [Doc.stop])).outs = [(0, 1), (1, 2)] := by decide
 example : Out.event "d1" 1 [("x", .num 5), ("_time", .num 9)] ∈ (NormFlow.run (exDocs ++ [Doc.stop])).outs := by decide
+example : (NormFlow.run (exDocs ++ [Doc.stop])).outs.flatMap eventOf = [("d1", 1), ("d1", 2)] := by decide
 example : (runAll 3 [((0 : Nat), false), (1, false), (2, true), (3, false), (4, true)]).log = [0, 1, 2, 3, 4] := by decide
 example : (runAll 2 [((0 : Nat), false), (1, false), (2, true), (3, false)]).log = [1, 2, 3] := by decide
 
